@@ -4,6 +4,7 @@ package sm4
 
 import (
 	"bytes"
+	"crypto/cipher"
 	"fmt"
 	"testing"
 
@@ -135,6 +136,54 @@ func TestVerifC06(t *testing.T) {
 			})
 		}
 	}
+	// NONCES of 2^31+12, 2^32+12, 2^32+13 bytes (and 2^24+12): the length that selects the 96-bit derivation is
+	// compared at full width only if nobody narrows it. All-zero nonces (an untouched zero mapping, optionally a
+	// short non-zero tail) have an exact O(1) oracle: zero blocks keep the GHASH state at zero.
+	if asmDetected {
+		withAsm(true, func() {
+			big := hk.ZeroMap(1<<32+4096, true)
+			if big == nil {
+				r.Inconclusive("c06: cannot map 4 GiB for the giant nonces")
+				return
+			}
+			defer hk.Unmap(big)
+			sizes := []int{1<<24 + 12, 1<<31 + 12, 1<<32 + 12, 1<<32 + 13}
+			if hk.Thorough() {
+				sizes = append(sizes, 1<<32+16, 1<<31+28, 1<<16+12+1<<32)
+			}
+			for _, nl := range sizes {
+				key, pt, aad := rng.Bytes(16), rng.Bytes(45), rng.Bytes(9)
+				blk, _ := NewCipher(key)
+				a, err := cipher.NewGCMWithNonceSize(blk, nl)
+				if err != nil {
+					r.Violation("cannot-construct-aead:asm", hk.D{"nonce_size": nl, "err": err.Error()})
+					continue
+				}
+				zeros := uint64(nl) &^ 15
+				tailLen := nl - int(zeros)
+				tail := rng.Bytes(tailLen)
+				copy(big[zeros:], tail)
+				g := ref.NewGCM(key)
+				want := g.SealJ0(g.J0ZeroPrefixed(zeros, tail), pt, aad, 16)
+				var got []byte
+				p, msg, _, _ := hk.Try(func() { got = a.Seal(nil, big[:nl], pt, aad) })
+				d := hk.D{"key": hk.Hex(key), "nonce": fmt.Sprintf("0^%d || %s (%d bytes)", zeros, hk.Hex(tail), nl), "aad": hk.Hex(aad), "pt": hk.Hex(pt)}
+				if p {
+					d["panic"] = msg
+					r.Violation("seal-panics:asm:giant-nonce", d)
+				} else if !bytes.Equal(got, want) {
+					d["got"], d["want"] = hk.Hex(got), hk.Hex(want)
+					r.Violation("seal-differs-from-sp800-38d:asm:giant-nonce", d)
+				} else if back, err := a.Open(nil, big[:nl], want, aad); err != nil || !bytes.Equal(back, pt) {
+					r.Violation("open-rejects-reference-message:asm:giant-nonce", d)
+				}
+				for i := range tail {
+					big[int(zeros)+i] = 0
+				}
+				r.Eval(fmt.Sprintf("asm|giant-nonce|2^%d+%d", bitlenInt(nl)-1, nl-1<<uint(bitlenInt(nl)-1)))
+			}
+		})
+	}
 	// ONE AEAD shared by all workers sealing different messages at the same time
 	for _, asm := range paths() {
 		asm := asm
@@ -230,4 +279,12 @@ func TestVerifC06(t *testing.T) {
 			})
 		})
 	}
+}
+
+func bitlenInt(v int) int {
+	n := 0
+	for ; v > 0; v >>= 1 {
+		n++
+	}
+	return n
 }
